@@ -69,16 +69,30 @@ def Decided (s : State) (i : Nat) : Prop :=
 theorem mem_erase_of_ne' {a b : Nat} {l : List Nat} (h : a ∈ l) (hne : a ≠ b) : a ∈ l.erase b :=
   (List.mem_erase_of_ne hne).mpr h
 
-theorem good_step {v s a s'} (hn : v.nbNotify = true) (hA : InvA s) (hE : InvE s) (i : Nat)
-    (h : Good s i) (hs : step v s a = some s') (ha : a ≠ .wFire i) : Good s' i := by
+theorem good_step_run {v s a s'} (hn : v.nbNotify = true) (hA : InvA s) (hE : InvE s) (i : Nat)
+    (h : Good s i) (hs : step v s a = some s') (hra : RunAct a = true) : Good s' i := by
   obtain ⟨l1, l2, l3, l4, vWl, vLoop, vPut, fresh, cap1⟩ := hA
   obtain ⟨putEmpty, kept⟩ := hE
   unfold Good at *
-  cases a <;> step_cases hs <;>
+  cases a <;> (try (simp [RunAct] at hra; done)) <;> step_cases hs <;>
     grind [State.setW, State.setS, RunPc.lockW, RunPc.lockR, preGe, carriedGe, bufGe, mem_erase_of_ne']
 
+theorem good_step_other {v s a s'} (hA : InvA s) (i : Nat)
+    (h : Good s i) (hs : step v s a = some s') (hra : RunAct a = false) (ha : a ≠ .wFire i ∧ a ≠ .wCancel i) :
+    Good s' i := by
+  obtain ⟨l1, l2, l3, l4, vWl, vLoop, vPut, fresh, cap1⟩ := hA
+  unfold Good at *
+  cases a <;> (try (simp [RunAct] at hra; done)) <;> step_cases hs <;>
+    grind [State.setW, State.setS, RunPc.lockW, RunPc.lockR, preGe, carriedGe, bufGe]
+
+theorem good_step {v s a s'} (hn : v.nbNotify = true) (hA : InvA s) (hE : InvE s) (i : Nat)
+    (h : Good s i) (hs : step v s a = some s') (ha : a ≠ .wFire i ∧ a ≠ .wCancel i) : Good s' i := by
+  cases hra : RunAct a with
+  | true => exact good_step_run hn hA hE i h hs hra
+  | false => exact good_step_other hA i h hs hra ha
+
 theorem rgood_step {v s a s'} (hn : v.nbNotify = true) (hA : InvA s) (hE : InvE s) (i : Nat)
-    (h : RGood s i) (hs : step v s a = some s') (ha : a ≠ .wFire i) : RGood s' i := by
+    (h : RGood s i) (hs : step v s a = some s') (ha : a ≠ .wFire i ∧ a ≠ .wCancel i) : RGood s' i := by
   obtain ⟨l1, l2, l3, l4, vWl, vLoop, vPut, fresh, cap1⟩ := hA
   obtain ⟨putEmpty, kept⟩ := hE
   unfold RGood at *
@@ -248,7 +262,7 @@ theorem run_acts {v} (hn : v.nbNotify = true) (e : Exec v) (hf : WeakFair e RunA
 
 section Liveness
 variable {v : Variant} (hn : v.nbNotify = true) (e : Exec v) (i n0 : Nat)
-  (hnofire : ∀ m, n0 ≤ m → e.act m ≠ .wFire i)
+  (hnofire : ∀ m, n0 ≤ m → e.act m ≠ .wFire i ∧ e.act m ≠ .wCancel i)
 include hn hnofire
 
 theorem good_forever {n : Nat} (hn0 : n0 ≤ n) (h : Good (e.st n) i) : ∀ m, n ≤ m → Good (e.st m) i := by
@@ -378,8 +392,8 @@ def holds (r : RunPc) : Bool := r.lockW || r.lockR
 
 /-- remaining work of `Run`'s critical section (`n` members, `wl` registered waiters) -/
 def csMeasure (n wl : Nat) : RunPc → Nat
-  | .ubRead i _ => (n + 1 - i) + (n + 2) + 2 * wl + 2
-  | .ubSel i _ _ => (n + 1 - i) + 2 * wl + 2
+  | .ubRead i _ _ => (n + 1 - i) + (n + 2) + 2 * wl + 2
+  | .ubSel i _ _ _ => (n + 1 - i) + 2 * wl + 2
   | .nCheck _ _ => 2 * wl + 2
   | r => mu r
 
@@ -393,11 +407,11 @@ theorem holds_frame {v s a s'} (hA : InvA s) (hs : step v s a = some s') (ha : R
 theorem holds_enabled {v s} (hn : v.nbNotify = true) (hA : InvA s) (cf : ∀ c, connFree s c = true)
     (hr : holds s.run = true) : ∃ a, RunAct a = true ∧ (step v s a).isSome = true := by
   cases hrun : s.run with
-  | ubRead i seqs =>
+  | ubRead i seqs rts =>
     refine ⟨.ubRead, rfl, ?_⟩
     simp only [step, hrun, cf i, if_true]
     split <;> simp
-  | ubSel i seqs acc =>
+  | ubSel i seqs rts acc =>
     by_cases hi : i < s.heads.length
     · refine ⟨.ubSel, rfl, ?_⟩
       simp only [step, hrun, hi, cf i, if_true]
